@@ -112,3 +112,14 @@ def run(run_, tier):
     n = symla_systems.run_cases(run_, "c08_cases", keep=lambda oid: "projection-" not in oid)
     transitions(run_)
     run_.notes.append(f"{n} system configurations")
+    # sample_momentum is `metric.sqrt @ z`: that sqrt @ sqrt.T is the metric, for every positive definite matrix class, every way
+    # such a metric is derived (inverse, positive multiple) and every dimension, is the C10 contract of `sqrt` -- imported here:
+    # Engine D (generic dimension, composite + leaf classes) and Engine B (entrywise at fixed shapes)
+    from . import c10, c10_generic
+    run_.replay_for("generic/", lambda w: {"script": "c10_generic.py", "args": [json.dumps(w or {})], "timeout": 600})
+    run_.replay_for("matrices.", lambda w: {"script": "c10_matrices.py", "args": [json.dumps(w or {})], "timeout": 900})
+    c10_generic.run_generic(run_, tier, keep=lambda oid: "sqrt" in oid and "log_abs_det" not in oid)
+    pd_factories = [f for f in c10.factories() if any(t in f for t in ("Identity", "Diagonal", "TriangularFactored", "DenseDefinite", "DensePositiveDefinite",
+                                                                      "Eigendecomposed", "SoftAbs", "LowRank", "Block"))]
+    c10.run_suite(run_, pd_factories, tier, keep=lambda oid: "sqrt" in oid)
+    run_.function("mici.matrices.<every positive definite class>._construct_sqrt (C10 contract: sqrt @ sqrt.T == matrix), incl. derived objects")
